@@ -28,6 +28,7 @@ def _c02():
         ("R-EXPIRE-KEEP", "in the engine methods behind in-place modifying commands a freshly constructed StoredValue (no TTL) enters the key space only where the key has no live entry: the TTL survives in-place modifications", rules_expire.rule_keep),
         ("R-EXPIRE-INDEXREAD", "deadlines that are reported, persisted or acted on come from the stored value's metadata: only the sweeper reads the (possibly stale) expiry index", rules_expire.rule_index_read),
         ("R-RDB-CLOCK", "a remaining TTL is converted to the absolute deadline in the dump (and back at load) with a clock value read in the same function invocation, not one cached earlier", rules_rdb.rule_deadline_clock),
+        ("R-RDB-CARRY", "per-record loader state kept in a reader field (an expiry waiting for its key) is reset on every successful exit of the function that consumes it: no record inherits the previous record's TTL", rules_rdb.rule_carry),
     ]
 
 
@@ -69,8 +70,10 @@ def _c09():
         ("R-RDB-EXPIRED", "a record carrying an expiry is never loaded as a persistent key", rules_rdb.rule_expired_on_load),
         ("R-RDB-DB", "loader stores into the database of the last SelectDb record; the writer's selector is the database it reads from", rules_rdb.rule_rdb_db),
         ("R-EXPIRE-INDEXREAD", "deadlines that are reported, persisted or acted on come from the stored value's metadata: only the sweeper reads the (possibly stale) expiry index", rules_expire.rule_index_read),
+        ("R-RDB-TEXTNUM", "where the snapshot writer parses dataset text as a number, the number replaces the text only under a round trip n.to_string() == text (strings are stored byte for byte)", rules_int.rule_rdb_text_numbers),
         ("R-RDB-SIBLINGS", "every reader function that dispatches on the value-type byte (skipper, validator) consumes per type exactly what the writer emits", rules_rdb.rule_shape_siblings),
         ("R-RDB-CLOCK", "a remaining TTL is converted to the absolute deadline in the dump (and back at load) with a clock value read in the same function invocation, not one cached earlier", rules_rdb.rule_deadline_clock),
+        ("R-RDB-CARRY", "per-record loader state kept in a reader field (an expiry waiting for its key) is reset on every successful exit of the function that consumes it: no record inherits the previous record's TTL", rules_rdb.rule_carry),
     ]
 
 
@@ -176,6 +179,7 @@ def _c17():
         ("R-AUTH-GATE", "every privileged call on the frame path is dominated by the pass edge of the authentication gate (in process_frame by dominance and non-reachability from the refuse edge; outside it nothing privileged runs per frame)", rules_auth.rule_gate),
         ("R-AUTH-SET", "ConnectionState::Authenticated is stored only at accept without password, after a full password equality in AUTH (for the calling connection), or when leaving Blocked", rules_auth.rule_set),
         ("R-AUTH-FAIL", "the failed-AUTH edge performs no state-changing call", rules_auth.rule_fail),
+        ("R-AUTH-PWSRC", "the configured password reaches the field the gate and AUTH compare against exactly as written: no case mapping, lossy decoding, replacement or cutting on the (interprocedural) data flow into a password field", rules_auth.rule_pwsrc),
     ]
 
 
@@ -221,6 +225,7 @@ def _c18():
         ("R-DB-SELECT", "the connection's selected database is stored only under a dominating index < database_count() test", rules_db.rule_select),
         ("R-TX-CONN", "queued commands are re-dispatched with the executing connection's identity (SELECT inside MULTI)", rules_tx.rule_tx_conn),
         ("R-DB-EXEC", "in EXEC's loop the database of each queued command is read from the connection earlier in the same iteration (a queued SELECT governs the commands behind it)", rules_db.rule_exec_db),
+        ("R-DB-WAKE", "the wake path of a blocking pop uses the database recorded in the wake-up request (where the client blocked), never the connection's current selection", rules_db.rule_wake_db),
     ]
 
 
